@@ -87,7 +87,7 @@ def closed_form_cases(draw):
         "m1": draw(st.lists(gen.qfloat(0.0, 1.0, 0.05), min_size=D, max_size=D)),
         "m2": draw(st.lists(gen.qfloat(0.0, 0.3, 0.05), min_size=D, max_size=D)),
         "steps": draw(st.integers(0, 8)),
-        "scale": draw(st.one_of(st.sampled_from([1.0, 0.5, 2.0, None]), gen.qfloat(0.1, 2.0, 0.01))),
+        "scale": draw(st.one_of(st.sampled_from([1.0, 0.5, 2.0, None, 0.0, 0]), gen.qfloat(0.1, 2.0, 0.01))),
         "dtype": draw(gen.dtypes()),
         "N": draw(st.integers(1, 3)),
         "via": draw(st.sampled_from(["expv", "expv", "ExpFlow", "svf"])),
@@ -161,7 +161,7 @@ def equiv_cases(draw):
     shape = draw(st.lists(st.integers(2, 10 if D == 2 else 7), min_size=D, max_size=D))
     return {
         "D": D, "shape": shape, "ac": draw(st.booleans()), "N": draw(st.integers(1, 3)),
-        "steps": draw(st.integers(0, 6)), "scale": draw(st.one_of(st.none(), gen.qfloat(0.05, 2.0, 0.01), gen.qfloat(-2.0, -0.05, 0.01))),
+        "steps": draw(st.integers(0, 6)), "scale": draw(st.one_of(st.none(), st.sampled_from([0.0, 0, 1, -1]), gen.qfloat(0.05, 2.0, 0.01), gen.qfloat(-2.0, -0.05, 0.01))),
         "amp": draw(gen.qfloat(0.0, 0.6, 0.01)), "key": draw(st.integers(0, 10 ** 6)),
         "dtype": draw(gen.dtypes()),
         "content": draw(st.sampled_from(["noise", "smooth"])),
@@ -185,8 +185,6 @@ def run_equiv(case):
     v = make_field(case)
     ac, steps, scale = case["ac"], case["steps"], case["scale"]
     s = 1.0 if scale is None else scale
-    if s == 0:
-        raise Skip("zero scale")
     kw = {} if scale is None else {"scale": scale}
     tol = 8 * eps_of(v.dtype) * max(1.0, float(v.abs().max()) * abs(s))
     v0 = v.clone()
@@ -340,15 +338,15 @@ FACETS = [
     Facet("closed_form", run_closed_form, strategy=closed_form_cases,
           rule="invariant affine generator constructed from free off-diagonals + dominance margins; "
                "non-trivial = some |off-diagonal| > 0.02, steps >= 2, non-cubic shape",
-          quick=600, thorough=20000, shards=16, quick_shards=2),
+          quick=2000, thorough=30000, shards=16, quick_shards=4),
     Facet("equivalences", run_equiv, strategy=equiv_cases,
           rule="noise/smooth fields; inverse flag vs negated field vs negated scale; ExpFlow forms; "
                "non-trivial = non-zero field and steps >= 1",
-          quick=300, thorough=6000, shards=8),
+          quick=800, thorough=8000, shards=8, quick_shards=2),
     Facet("convergence", run_convergence, strategy=convergence_cases,
           rule="invariant affine generator, float64, all steps k0..8; non-trivial = ||G||_inf > 0.3 and >= 5 step counts",
-          quick=100, thorough=2000, shards=8),
+          quick=200, thorough=3000, shards=8),
     Facet("smooth_inverse", run_smooth, strategy=smooth_cases,
           rule="band-limited fields vanishing at the boundary, amplitude a in [0.05, 2] samples, checked at a and a/2; non-trivial = a >= 0.2",
-          quick=60, thorough=1500, shards=8),
+          quick=150, thorough=2000, shards=8),
 ]
